@@ -92,7 +92,8 @@ def _worker_init(counter):
     with counter.get_lock():
         counter.value += 1
         slot = counter.value
-    os.environ["KMT_TARGET_SLOT"] = "-b%d" % slot
+    # KMT_BATTERY_SLOT_BASE: several thorough runs side by side use disjoint cargo target directories
+    os.environ["KMT_TARGET_SLOT"] = "-b%d" % (slot + int(os.environ.get("KMT_BATTERY_SLOT_BASE", "0") or 0))
 
 
 def _run_one(args):
